@@ -99,3 +99,34 @@ Proof.
   right. exists f. split; [reflexivity|].
   destruct (write vp8 st f bytes) as [[st2 r] k]. inversion H. reflexivity.
 Qed.
+
+(* C01 at the level of the bytes sent: the number carried by a forwarded
+   packet is the one the packet map assigned *)
+Lemma write_number vp8 st f buf d : bytes_ok buf ->
+  nth 2 buf 0 * 256 + nth 3 buf 0 = f_seqno f ->
+  snd (fst (write vp8 st f buf)) = WSent d ->
+  exists m1 newseq pd m2,
+    (m1 = fs_map st \/ exists p, pm_drop (fs_map st) (f_seqno f) (f_pid f) = (false, m1) /\ p = tt) /\
+    pm_map m1 (f_seqno f) (f_pid f) = ((true, newseq, pd), m2) /\
+    (0 <= newseq < 65536 -> nth 2 d 0 * 256 + nth 3 d 0 = newseq).
+Proof.
+  intros Hb Hseq. unfold write.
+  destruct (write_layer _ f _ _) as [[l3 drop] kf].
+  destruct (if drop then pm_drop (fs_map st) (f_seqno f) (f_pid f) else (false, fs_map st))
+    as [dropped m1] eqn:Ed.
+  destruct dropped; [cbn; discriminate|].
+  destruct (pm_map m1 (f_seqno f) (f_pid f)) as [[[ok newseq] piddelta] m2] eqn:Em.
+  destruct ok; cbn [negb]; [|cbn; discriminate].
+  assert (Hm1 : m1 = fs_map st \/ exists p, pm_drop (fs_map st) (f_seqno f) (f_pid f) = (false, m1) /\ p = tt).
+  { destruct drop; [right; exists tt; auto|left; inversion Ed; reflexivity]. }
+  destruct (negb _ && (newseq =? f_seqno f) && (piddelta =? 0)) eqn:Esame; cbn [fst snd].
+  - intros H. inversion H; subst d. exists m1, newseq, piddelta, m2.
+    split; [exact Hm1|]. split; [exact Em|]. intros _.
+    apply andb_prop in Esame. destruct Esame as (E1 & _). apply andb_prop in E1. destruct E1 as (_ & E2).
+    lia.
+  - destruct (rewrite vp8 buf _ newseq (w16 (- piddelta))) as [d'| |] eqn:Er; cbn [fst snd]; try discriminate.
+    intros H. inversion H; subst d'. exists m1, newseq, piddelta, m2.
+    split; [exact Hm1|]. split; [exact Em|]. intros Hr.
+    destruct (rewrite_values vp8 buf _ newseq (w16 (- piddelta)) d Hb Er) as (_ & H2 & H3).
+    rewrite H2, H3. lia.
+Qed.
